@@ -33,3 +33,22 @@ Fixpoint stream_prefix (next_idx : Z -> option Z) (next_val : Z -> Q -> option Q
 
 (** sum of a list (fractions are reduced after every addition so that evaluation stays fast; same value) *)
 Fixpoint qsum (l : list Q) : Q := match l with [] => 0%Q | x :: r => Qred (x + qsum r)%Q end.
+
+(** A LazyList[Double] seen through what the class LeveneHaldane does with it: FORCING element i (0-based) yields a value, or
+    [None] when computing it throws / is not finite / is not available.  Only finitely many elements are ever forced. *)
+Definition stream := Z -> option Q.
+(** s(i): LazyList.apply - a negative index throws *)
+Definition s_at (s : stream) (i : Z) : option Q := if i <? 0 then None else s i.
+(** elements i, i+1, ..., i+k-1 *)
+Fixpoint s_take (s : stream) (k : nat) (i : Z) : option (list Q) :=
+  match k with
+  | O => Some []
+  | S k' => match s i, s_take s k' (i + 1) with Some x, Some l => Some (x :: l) | _, _ => None end
+  end.
+(** s.slice(from, until): the elements with index max(from, 0) <= i < until (empty when until <= from) *)
+Definition s_slice (s : stream) (a b : Z) : option (list Q) := s_take s (Z.to_nat (b - Z.max a 0)) (Z.max a 0).
+Definition s_tail (s : stream) : stream := fun i => if i <? 0 then None else s (i + 1).
+(** l.takeWhile(_ > cutoff) for a ROUND-OFF cut-off (1e-16 relative): the exact model keeps every term - cut-offs are ignored *)
+Definition l_cut (cutoff : Q) (l : list Q) : list Q := l.
+(** the stream whose first elements are those of [l]; forcing anything beyond is [None] (used for evaluation: fails closed) *)
+Definition s_of_list (l : list Q) : stream := fun i => if i <? 0 then None else nth_error l (Z.to_nat i).
